@@ -160,6 +160,25 @@ func init() {
 					emit("cut-short-msm", fmt.Sprintf("analyse %s %s", defaultStart, hx(mkFrame(full[:n]))))
 				}
 			}
+			// byte strings of every length 0..12 handed straight to the four decoders (prefixes of
+			// well-formed frames and random bytes): length arithmetic must not wrap
+			for i := 0; i < c.N(2, 10); i++ {
+				s4, s7 := randSpec(r, false, "8x8"), randSpec(r, true, "8x8")
+				f4, f7 := mkFrame(s4.encode()), mkFrame(s7.encode())
+				f5 := mkFrame(encodeBase([]int64{1005, 1, 2, 0, coordVal(r), 0, coordVal(r), 0, coordVal(r)}))
+				f6 := mkFrame(encodeBase([]int64{1006, 1, 2, 0, coordVal(r), 0, coordVal(r), 0, coordVal(r), 99}))
+				for k := 0; k <= 12; k++ {
+					for _, pr := range []struct {
+						op string
+						f  []byte
+					}{{"msm4", f4}, {"msm7", f7}, {"base5", f5}, {"base6", f6}} {
+						emit("decoder-on-short-bytes", pr.op+" "+hx(pr.f[:k]))
+						b := make([]byte, k)
+						r.Read(b)
+						emit("decoder-on-short-bytes", pr.op+" "+hx(b))
+					}
+				}
+			}
 			// random streams through the stream handler
 			for i := 0; i < c.N(60, 1000); i++ {
 				b := make([]byte, r.Intn(300))
